@@ -4,11 +4,17 @@ Spec = model parameters + time-manager parameters + failure plan:
     {"nxy": [nx, ny], "fracture": bool, "src": s, "compressibility": c, "perm": k, "nstore": 1|2,
      "tm": {"schedule": [t0, t1], "dt_init", "dt_min_max", "iter_max", "iter_optimal_range",
             "iter_relax_factors", "recomp_factor", "recomp_max"},
-     "max_iterations": n, "plan": [["ok"] | ["div", j] | ["never"], ...], "replay": bool}
+     "max_iterations": n, "plan": [["ok"] | ["div", j] | ["never"], ...], "replay": bool,
+     "guess": {"kind": "none"|"extrapolate"|"perturb"|"garbage", "when": "all"|"first-attempt", "amp": a},
+     "nit": 1|2, "bc_ramp": 0|amp}
 plan[k] applies to the k-th call of NewtonSolver.solve (failed attempts count); solves beyond the
 plan are "ok".  A harness subclass of pp.SinglePhaseFlow (compressible fluid, constant source,
 2-4 matrix cells, optional fracture) is run through pp.run_time_dependent_model; it overrides
-``check_convergence`` (calls super, then replaces the answer according to the plan) and records
+``check_convergence`` (calls super, then replaces the answer according to the plan), optionally
+writes an initial guess of its own into iterate_index=0 before ``super().before_nonlinear_loop()``
+(predictor mixin: extrapolation of the two last accepted solutions, perturbation of the last one,
+or an unrelated vector), optionally stores two iterates and uses a time-dependent boundary
+pressure, and records
 the state before / after ``super().after_nonlinear_convergence()`` and
 ``super().after_nonlinear_failure()``.  The record is then interpreted against a bookkeeping
 model: last accepted solution, the one before, last accepted time, consecutive failures."""
@@ -25,13 +31,18 @@ RULE = (
     "cells on the unit square, optionally one fracture through the domain, constant source in cell 0, "
     "compressibility 0.1..1, permeability 0.05..1, zero Dirichlet pressure), a 2-point schedule with admissible "
     "adaptive TimeManager parameters (dt_init = T/1..4, dt_min = dt_init*{1,.5,.25,.125}, dt_max = dt_init*{1,2,4}), "
-    "the Newton iteration limit (5..10), whether 1 or 2 time-step solutions are stored, and a failure plan of "
+    "the Newton iteration limit (5..10), whether 1 or 2 time-step solutions and 1 or 2 iterates are stored, an "
+    "initial-guess mixin (none | linear extrapolation of the two last accepted solutions | perturbation of the "
+    "last one | unrelated vector; written to iterate[0] before super().before_nonlinear_loop() on every solve or "
+    "only on first attempts), a constant or linearly ramped boundary pressure, and a failure plan of "
     "length <= 8 over the successive Newton solves (ok | diverge at iteration j | never converge). The model is "
     "run by pp.run_time_dependent_model with failure injection in check_convergence. Oracle = bookkeeping model "
-    "replayed over the recorded hook calls: every solve starts at last accepted time + dt with iterate == stored "
+    "replayed over the recorded hook calls: every solve starts (before the model writes its guess) at last accepted "
+    "time + dt with iterate == stored "
     "time-step values == last accepted solution (exact); after a converged solve time_step[0] == iterate == the "
     "converged iterate (exact), time_step[1] == previous accepted solution when two are stored, time unchanged; "
-    "after a failed solve iterate == time_step[0] == last accepted solution (exact), time_step[1] unchanged, "
+    "after a failed solve iterate == time_step[0] == last accepted solution (exact, whatever guess the failed loop "
+    "started from), time_step[1] unchanged, "
     "time == last accepted time (1e-12 relative); every planned failure reaches after_nonlinear_failure; "
     "ValueError exactly when consecutive failures == recomp_max or dt == dt_min; otherwise the run ends at the "
     "final time with the stored history equal to the last accepted solutions; for half of the cases the accepted "
@@ -47,9 +58,12 @@ LEVEL_TEXT = ("Exploration: about a hundred (quick) to a few thousand (thorough)
               "at a chosen iteration, exhaustion of the iteration limit, bursts up to and beyond the "
               "recomputation budget, failure of the very first solve, of the last step); after every hook call "
               "the stored time-step values, the current iterate and the clock are compared exactly with the "
-              "bookkeeping model; accepted solutions are cross-checked against a failure-free re-run.")
+              "bookkeeping model; accepted solutions are cross-checked against a failure-free re-run. Models "
+              "that start the Newton loop from their own initial guess (predictor), store two iterates or use "
+              "time-dependent boundary values are part of the generated configurations.")
 LEVEL_NOTE = ("One model family (compressible single-phase flow, TPFA, <= 4 matrix cells + optional fracture), "
-              "constant boundary data, 2-point schedules (scheduled intermediate times are C09), at most 8 "
+              "constant source, constant or linearly ramped Dirichlet pressure, model-side overrides limited to "
+              "initial guess / number of stored iterates and time steps / boundary values, 2-point schedules (scheduled intermediate times are C09), at most 8 "
               "planned failures. Each case is a real simulation (~0.5-1 s), so case counts are in the hundreds, "
               "not millions. Finds violations, does not prove absence.")
 DESIGN_REF = "DESIGN.md section 4, C10"
@@ -58,8 +72,12 @@ ASSUMPTIONS = [
     "before_nonlinear_loop / after_nonlinear_convergence / after_nonlinear_failure are overridden only to record "
     "state around the call of the base implementation",
     "TimeManager arguments satisfy the documented constructor constraints; dt_init <= final - initial time",
-    "boundary data and sources are constant in time, so an accepted solution depends only on the previous "
-    "accepted solution and the step size (used by the failure-free re-run)",
+    "sources are constant and boundary data depend on time only, so an accepted solution depends only on the "
+    "previous accepted solution, the time and the step size (used by the failure-free re-run); the initial guess "
+    "changes it only at the level of the Newton tolerance (1e-10 on the increment, compared with rtol 1e-7)",
+    "a model may write any finite vector of the right size into iterate_index=0 before calling "
+    "super().before_nonlinear_loop() (initial guess / predictor); guesses are bounded (|p| <= ~1) so that "
+    "Newton still converges",
     "time_step_indices is overridden to store 1 or 2 solutions (documented extension point)",
 ]
 REQUIRED = {
@@ -73,6 +91,10 @@ REQUIRED = {
     "nstore2": 0.3,
     "fracture": 0.15,
     "replayed": 0.2,
+    "initial-guess": 0.35,
+    "failure-with-guess": 0.12,
+    "iterates-2": 0.15,
+    "time-dependent-bc": 0.25,
 }
 
 
@@ -115,8 +137,14 @@ def _spec(draw, tier):
             plan.append(["div", draw(st.integers(1, max_it + 1))])
         else:
             plan.append([kind])
+    gkind = draw(st.sampled_from(["none", "none", "extrapolate", "extrapolate", "perturb", "perturb", "garbage"]))
+    guess = {"kind": gkind}
+    if gkind != "none":
+        guess["when"] = draw(st.sampled_from(["all", "all", "first-attempt"]))
+        guess["amp"] = draw(st.sampled_from([1e-3, 0.1] if gkind == "perturb" else [0.1, 1.0]))
     return {"nxy": nxy, "fracture": fracture, "src": src, "compressibility": comp, "perm": perm, "nstore": nstore,
-            "tm": tm, "max_iterations": max_it, "plan": plan, "replay": draw(st.booleans())}
+            "tm": tm, "max_iterations": max_it, "plan": plan, "replay": draw(st.booleans()),
+            "guess": guess, "nit": draw(st.sampled_from([1, 1, 2])), "bc_ramp": draw(st.sampled_from([0, 0, 0.5, -1.0]))}
 
 
 def strategy(tier):
@@ -160,6 +188,20 @@ def _classes():
         def time_step_indices(self):
             return np.arange(self.params["nstore"])
 
+        @property
+        def iterate_indices(self):
+            return np.arange(self.params.get("nit", 1))
+
+        def bc_values_pressure(self, bg):
+            # zero, or a linear ramp in time on the west boundary (0 at the initial time, bc_ramp at the end)
+            vals = np.zeros(bg.num_cells)
+            amp = self.params.get("bc_ramp", 0)
+            if amp:
+                tmg = self.time_manager
+                frac = (float(tmg.time) - float(tmg.time_init)) / (float(tmg.time_final) - float(tmg.time_init))
+                vals[self.domain_boundary_sides(bg).west] = amp * frac
+            return vals
+
     class Harness(Flow):
         """Failure injection in check_convergence; state snapshots around the base hooks."""
 
@@ -173,10 +215,32 @@ def _classes():
             }
 
         def before_nonlinear_loop(self):
-            super().before_nonlinear_loop()
+            # state as the driver left it (before the initial guess of this model is written)
             self.c10_solve = getattr(self, "c10_solve", -1) + 1
             self.c10_iter = 0
-            self.c10_log.append({"kind": "start", "solve": self.c10_solve, **self._snap()})
+            snap = self._snap()
+            if not hasattr(self, "c10_accepted"):
+                self.c10_accepted = [snap["ts"][0].copy()]  # the initial condition
+                self.c10_retry = False
+            # Initial-guess mixin (predictor): a model may start the Newton loop from any vector it likes.  The
+            # guess is built from the accepted solutions tracked by the harness, not from the stored state.
+            g = self.params.get("guess", {"kind": "none"})
+            guess = None
+            if g["kind"] != "none" and not (g["when"] == "first-attempt" and self.c10_retry):
+                acc = self.c10_accepted
+                n = acc[-1].size
+                pattern = np.sin(1.7 * np.arange(n) + 0.3 * (self.c10_solve + 1))
+                if g["kind"] == "extrapolate" and len(acc) >= 2:
+                    guess = 2.0 * acc[-1] - acc[-2]
+                elif g["kind"] == "perturb":
+                    guess = acc[-1] + g["amp"] * pattern
+                elif g["kind"] == "garbage":
+                    guess = g["amp"] * pattern
+            active = guess is not None and not np.array_equal(guess, snap["ts"][0])
+            if active:
+                self.equation_system.set_variable_values(guess, iterate_index=0)
+            super().before_nonlinear_loop()
+            self.c10_log.append({"kind": "start", "solve": self.c10_solve, "guess": bool(active), **snap})
 
         def check_convergence(self, nonlinear_increment, residual, reference_residual, nl_params):
             conv, div = super().check_convergence(nonlinear_increment, residual, reference_residual, nl_params)
@@ -193,12 +257,15 @@ def _classes():
             pre = self._snap()
             iters = int(self.nonlinear_solver_statistics.num_iteration)
             super().after_nonlinear_convergence()
+            self.c10_accepted.append(pre["it"])
+            self.c10_retry = False
             self.c10_log.append({"kind": "conv", "solve": self.c10_solve, "pre": pre, "post": self._snap(),
                                  "iters": iters})
 
         def after_nonlinear_failure(self):
             pre = self._snap()
             iters = int(self.nonlinear_solver_statistics.num_iteration)
+            self.c10_retry = True
             try:
                 super().after_nonlinear_failure()
             except ValueError as e:
@@ -221,6 +288,7 @@ def _model_params(spec, tm):
     return {
         "time_manager": tm, "times_to_export": [], "fracture_indices": [0] if spec["fracture"] else [],
         "nxy": spec["nxy"], "src": spec["src"], "nstore": spec["nstore"], "linear_solver": "scipy_sparse",
+        "guess": spec.get("guess", {"kind": "none"}), "nit": spec.get("nit", 1), "bc_ramp": spec.get("bc_ramp", 0),
         "material_constants": {"fluid": fluid, "solid": solid},
     }
 
@@ -241,7 +309,8 @@ def warmup():
            "tm": {"schedule": [0, 1], "dt_init": 0.5, "dt_min_max": [0.125, 1.0], "iter_max": 7,
                   "iter_optimal_range": [2, 4], "iter_relax_factors": [0.5, 2.0], "recomp_factor": 0.5,
                   "recomp_max": 2},
-           "max_iterations": 6, "plan": [["ok"], ["div", 2]], "replay": True})
+           "max_iterations": 6, "plan": [["ok"], ["div", 2]], "replay": True,
+           "guess": {"kind": "perturb", "when": "all", "amp": 0.1}, "nit": 2, "bc_ramp": 0.5})
 
 
 # ----------------------------------------------------------------------------- check
@@ -301,6 +370,8 @@ def check(spec):
                             f"after_nonlinear_convergence / after_nonlinear_failure being called")
             require(not final_reached, "solve-after-final-time", f"solve {k} starts at t={r['time']!r} after the final time")
             open_start = r
+            if r.get("guess"):
+                labels.append("initial-guess")
             require(abs((r["time"] - r["dt"]) - last_time) <= 1e-12 * scale_t, "attempt-not-from-last-accepted-time",
                     lambda: f"solve {k} is at t={r['time']!r} with dt={r['dt']!r}; last accepted time {last_time!r}")
             require_equal(r["ts"][0], last_sol, "start-timestep-values-not-last-accepted", f"solve {k}")
@@ -309,6 +380,7 @@ def check(spec):
                 require_equal(r["ts"][1], prev_sol, "start-previous-timestep-values", f"solve {k}")
             continue
         require(open_start is not None and open_start["solve"] == k, "hook-without-solve", f"record {r['kind']} solve {k}")
+        with_guess = bool(open_start.get("guess"))
         open_start = None
         pl = planned(k)
         pre = r["pre"]
@@ -345,6 +417,8 @@ def check(spec):
                     labels.append("first-solve-fails")
             else:
                 labels.append("unplanned-failure")
+            if with_guess and r["kind"] == "fail":
+                labels.append("failure-with-guess")
             expect_raise = fails >= rmax or dt_used == dt_min
             if r["kind"] == "fail-raise":
                 require(expect_raise, "unexpected-raise",
@@ -400,6 +474,10 @@ def check(spec):
                           what=f"accepted step {j} (t={tj!r}, dt={dtj!r})")
 
     labels.append("nstore2" if nstore == 2 else "nstore1")
+    labels.append("iterates-%d" % spec.get("nit", 1))
+    labels.append("guess-" + spec.get("guess", {"kind": "none"})["kind"])
+    if spec.get("bc_ramp", 0):
+        labels.append("time-dependent-bc")
     if spec["fracture"]:
         labels.append("fracture")
     labels.append("cells-%d" % (spec["nxy"][0] * spec["nxy"][1]))
